@@ -337,3 +337,691 @@ Proof.
   unfold set_sw. eapply frame_trans; [apply frame_w_sws|]. apply frame_w_timers.
   intros j. proj. apply has_tmr_filter.
 Qed.
+
+Hypothesis W : wf cfg.
+
+Lemma NoDup_app_intro {A} (a b : list A) :
+  NoDup a -> NoDup b -> (forall x, In x a -> In x b -> False) -> NoDup (a ++ b).
+Proof.
+  induction a as [|x a IH]; cbn; intros Ha Hb D; [exact Hb|]. inversion Ha; subst. constructor.
+  - rewrite in_app_iff. intros [H|H]; [contradiction | eapply D; [left; reflexivity | exact H]].
+  - apply IH; auto. intros y Y1 Y2. eapply D; [right; exact Y1 | exact Y2].
+Qed.
+
+Lemma has_tmr_catchup s i j : has_tmr (TReenable j) (catchup cfg s i) = false.
+Proof.
+  unfold catchup. destruct (d_eos (cf cfg i)); [|reflexivity]. destruct (sget z (sws s)) as [a lc].
+  destruct (negb _ && a && _); reflexivity.
+Qed.
+
+Definition enabled_dev (c : dcfg) (d : dstate) : dstate :=
+  mkDS true (if is_flip c then arules d ++ rules_of c else rules_of c) (flipped d)
+       (if has_mgr c then Some (false, false) else mgr d) (hits d).
+
+Lemma dev_enable_proj s i :
+  enabled (dev s i) = false ->
+  let s' := dev_enable cfg s i in
+  let te := install (entries (rules_of (cf cfg i))) (tbl s, err s) in
+  tbl s' = fst te /\ err s' = snd te /\
+  devs s' = upd i (enabled_dev (cf cfg i) (dev s i)) (devs s) /\
+  (forall j, has_tmr (TReenable j) (timers s') = true -> has_tmr (TReenable j) (timers s) = true).
+Proof.
+  intros E. unfold dev_enable. rewrite E. unfold enabled_dev.
+  destruct (has_mgr (cf cfg i)); proj; repeat split; auto.
+  intros j. rewrite has_tmr_app, has_tmr_catchup, orb_false_r. auto.
+Qed.
+
+Lemma key_in_entries k v c : In (k, v) (entries_of c) -> In k (keys_of c).
+Proof. intros H. unfold keys_of. apply in_map_iff. exists (k, v). split; [reflexivity | exact H]. Qed.
+
+Lemma inv_enable s i : Inv s -> Inv (dev_enable cfg s i).
+Proof.
+  intros I. destruct (enabled (dev s i)) eqn:E.
+  { unfold dev_enable. rewrite E. exact I. }
+  destruct (dev_enable_proj s i E) as (PT & PE & PD & PTM).
+  set (s' := dev_enable cfg s i) in *. set (c := cf cfg i) in *.
+  assert (KN : NoDup (map fst (entries (rules_of c)))) by (apply (wf_keys_nodup cfg i W)).
+  assert (OUT : (length cfg <= i)%nat -> entries (rules_of c) = []).
+  { intros Li. unfold c. rewrite cf_overflow by exact Li. reflexivity. }
+  assert (DJ : forall k, In k (map fst (entries (rules_of c))) -> ~ In k (map fst (tbl s))).
+  { intros k Hk Ht. apply in_map_iff in Ht as [[k' v] [Ek Ht]]. cbn in Ek; subst k'.
+    apply (inv_tbl _ I) in Ht as (j & Lj & Ej & Hj).
+    destruct (Nat.eq_dec j i) as [->|NE]. { unfold en in Ej. congruence. }
+    destruct (Nat.lt_ge_cases i (length cfg)) as [Li|Li].
+    - eapply (wf_keys_disj cfg i j k W Li Lj); [congruence | exact Hk | eapply key_in_entries; exact Hj].
+    - rewrite OUT in Hk by exact Li. exact Hk. }
+  rewrite install_ok in PT, PE by assumption. cbn [fst snd] in PT, PE.
+  assert (DV : forall j, dev s' j = if Nat.eqb j i && Nat.ltb i (length (devs s))
+                                    then enabled_dev c (dev s i) else dev s j).
+  { intros j. unfold dev at 1. rewrite PD. apply nth_upd. }
+  assert (DVo : forall j, j <> i -> dev s' j = dev s j).
+  { intros j NE. rewrite DV. apply Nat.eqb_neq in NE. rewrite NE. reflexivity. }
+  assert (LEN := inv_len _ I).
+  constructor.
+  - rewrite PD, length_upd. exact LEN.
+  - intros j. unfold en. rewrite DV.
+    destruct (Nat.eqb j i && _) eqn:B.
+    + apply andb_true_iff in B as [B _]. apply Nat.eqb_eq in B; subst j.
+      cbn [enabled_dev enabled arules]. split; [intros _ | discriminate].
+      destruct (is_flip c) eqn:F; [|reflexivity].
+      destruct (inv_rules _ I i) as [_ R]. fold c in R. rewrite R; auto.
+    + apply (inv_rules _ I j).
+  - intros kv. rewrite PT, in_app_iff. rewrite (inv_tbl _ I kv). split.
+    + intros [(j & Lj & Ej & Hj) | H].
+      * exists j. repeat split; auto. unfold en in *. rewrite DVo; auto. intros ->. congruence.
+      * destruct (Nat.lt_ge_cases i (length cfg)) as [Li|Li]; [|rewrite OUT in H by exact Li; contradiction].
+        exists i. repeat split; auto. unfold en. rewrite DV, Nat.eqb_refl. rewrite LEN.
+        apply Nat.ltb_lt in Li. rewrite Li. reflexivity.
+    + intros (j & Lj & Ej & Hj). destruct (Nat.eq_dec j i) as [->|NE]; [right; exact Hj|].
+      left. exists j. repeat split; auto. unfold en in *. rewrite DVo in Ej; auto.
+  - rewrite PT, map_app. apply NoDup_app_intro; [apply (inv_nodup _ I) | exact KN |].
+    intros k A B. eapply DJ; eauto.
+  - rewrite PE. apply (inv_err _ I).
+  - intros j. unfold en. rewrite DV. destruct (Nat.eqb j i && _) eqn:B.
+    + apply andb_true_iff in B as [B _]. apply Nat.eqb_eq in B; subst j.
+      cbn [enabled_dev enabled mgr]. destruct (has_mgr c) eqn:HM; [auto|].
+      intros M. apply (inv_mgr _ I) in M as [M _]. fold c in M. congruence.
+    + apply (inv_mgr _ I j).
+  - intros j H. apply (inv_tmr _ I), PTM, H.
+Qed.
+
+Lemma mgr_in_range s i : mgr (dev s i) <> None -> (i < length (devs s))%nat.
+Proof.
+  intros M. destruct (Nat.lt_ge_cases i (length (devs s))) as [H|H]; [exact H|].
+  rewrite dev_overflow in M by exact H. cbn in M. congruence.
+Qed.
+Lemma en_in_range s i : en s i = true -> (i < length (devs s))%nat.
+Proof.
+  intros M. destruct (Nat.lt_ge_cases i (length (devs s))) as [H|H]; [exact H|].
+  unfold en in M. rewrite dev_overflow in M by exact H. cbn in M. discriminate.
+Qed.
+
+Lemma clear_rules_proj s i rs :
+  let s' := clear_rules cfg s i rs in
+  tbl s' = uninstall (rule_keys rs) (tbl s) /\ err s' = err s /\ length (devs s') = length (devs s) /\
+  mgr (dev s' i) = None /\
+  (forall j, enabled (dev s' j) = enabled (dev s j) /\ arules (dev s' j) = arules (dev s j) /\
+             flipped (dev s' j) = flipped (dev s j) /\
+             (j <> i -> mgr (dev s' j) = mgr (dev s j))) /\
+  (forall j, has_tmr (TReenable j) (timers s') = true -> has_tmr (TReenable j) (timers s) = true).
+Proof.
+  unfold clear_rules. destruct (mgr (dev s i)) as [[b l]|] eqn:M.
+  - assert (R : (i < length (devs s))%nat) by (apply mgr_in_range; congruence).
+    apply Nat.ltb_lt in R.
+    assert (X : forall s0 : state, devs s0 = upd i (mkDS (enabled (dev s i)) (arules (dev s i)) (flipped (dev s i)) None
+                                                     (hits (dev s i))) (devs s) ->
+            length (devs s0) = length (devs s) /\ mgr (dev s0 i) = None /\
+            (forall j, enabled (dev s0 j) = enabled (dev s j) /\ arules (dev s0 j) = arules (dev s j) /\
+                       flipped (dev s0 j) = flipped (dev s j) /\ (j <> i -> mgr (dev s0 j) = mgr (dev s j)))).
+    { intros s0 D.
+      assert (DV : forall j, dev s0 j = if Nat.eqb j i
+                   then mkDS (enabled (dev s i)) (arules (dev s i)) (flipped (dev s i)) None (hits (dev s i))
+                   else dev s j).
+      { intros j. unfold dev at 1. rewrite D, nth_upd, R, andb_true_r. reflexivity. }
+      split; [rewrite D; apply length_upd|]. split; [rewrite DV, Nat.eqb_refl; reflexivity|].
+      intros j. rewrite DV. destruct (Nat.eqb j i) eqn:B.
+      - apply Nat.eqb_eq in B; subst j. cbn. repeat split; auto. congruence.
+      - repeat split; reflexivity. }
+    destruct b; proj.
+    + destruct (X (w_devs (w_timers (w_log (w_psu (w_tbl s (uninstall (rule_keys rs) (tbl s)))
+               (fold_left (fun l0 k => remove_key k l0) (psu_keys rs) (psu s))) (log s ++ map (log_clr i) (rule_keys rs)))
+               (del_tmr (TEosLong i) (timers s)))
+               (upd i (mkDS (enabled (dev s i)) (arules (dev s i)) (flipped (dev s i)) None (hits (dev s i))) (devs s))))
+        as (X1 & X2 & X3); [reflexivity|].
+      repeat split; auto; try apply X3. intros j. apply has_tmr_del.
+    + destruct (X (w_devs (w_timers (w_log (w_psu (w_tbl s (uninstall (rule_keys rs) (tbl s)))
+               (fold_left (fun l0 k => remove_key k l0) (psu_keys rs) (psu s))) (log s ++ map (log_clr i) (rule_keys rs)))
+               (del_tmr (TEosLong i) (timers s)))
+               (upd i (mkDS (enabled (dev s i)) (arules (dev s i)) (flipped (dev s i)) None (hits (dev s i))) (devs s))))
+        as (X1 & X2 & X3); [reflexivity|].
+      repeat split; auto; try apply X3. intros j. apply has_tmr_del.
+  - proj. unfold dev in *. proj. repeat split; auto.
+Qed.
+
+Lemma dev_set_ocoil s c v j : dev (set_ocoil s c v) j = dev s j.
+Proof. destruct c; reflexivity. Qed.
+Lemma dev_release_other s i j : j <> i -> dev (dev_release cfg s i) j = dev s j.
+Proof.
+  intros H. unfold dev_release. destruct (is_flip (cf cfg i)); [|reflexivity].
+  rewrite dev_set_ocoil. unfold set_coil. unfold dev. proj. rewrite nth_upd.
+  apply Nat.eqb_neq in H. rewrite H. reflexivity.
+Qed.
+
+(* s' is s with device i switched off and its keys removed from the platform *)
+Definition disabled_from (s s' : state) (i : nat) : Prop :=
+  tbl s' = uninstall (keys_of (cf cfg i)) (tbl s) /\ err s' = err s /\ length (devs s') = length (devs s) /\
+  enabled (dev s' i) = false /\ (is_flip (cf cfg i) = true -> arules (dev s' i) = []) /\ mgr (dev s' i) = None /\
+  (forall j, j <> i -> enabled (dev s' j) = enabled (dev s j) /\ arules (dev s' j) = arules (dev s j) /\
+                       mgr (dev s' j) = mgr (dev s j)) /\
+  (forall j, has_tmr (TReenable j) (timers s') = true -> has_tmr (TReenable j) (timers s) = true).
+
+Lemma disabled_from_inv s s' i : Inv s -> en s i = true -> disabled_from s s' i -> Inv s'.
+Proof.
+  intros I E (DT & DE & DL & DEn & DA & DM & DO & DTM).
+  assert (Li : (i < length cfg)%nat) by (rewrite <- (inv_len _ I); apply en_in_range, E).
+  assert (ENo : forall j, j <> i -> en s' j = en s j) by (intros j NE; unfold en; apply DO, NE).
+  constructor.
+  - rewrite DL. apply (inv_len _ I).
+  - intros j. destruct (Nat.eq_dec j i) as [->|NE].
+    + unfold en. rewrite DEn. split; [discriminate | auto].
+    + rewrite ENo by exact NE. destruct (DO j NE) as (_ & A & _). rewrite A. apply (inv_rules _ I j).
+  - intros kv. rewrite DT, In_uninstall, (inv_tbl _ I kv). split.
+    + intros [(j & Lj & Ej & Hj) NK]. exists j. repeat split; auto.
+      rewrite ENo; auto. intros ->. apply NK. destruct kv as [k v]. eapply key_in_entries, Hj.
+    + intros (j & Lj & Ej & Hj).
+      assert (NE : j <> i) by (intros ->; unfold en in Ej; congruence).
+      split; [exists j; rewrite <- ENo by exact NE; auto|].
+      intros K. destruct kv as [k v]. eapply (wf_keys_disj cfg i j k W Li Lj); [congruence | exact K |].
+      eapply key_in_entries, Hj.
+  - rewrite DT. apply NoDup_uninstall, (inv_nodup _ I).
+  - rewrite DE. apply (inv_err _ I).
+  - intros j M. destruct (Nat.eq_dec j i) as [->|NE]; [congruence|].
+    destruct (DO j NE) as (_ & _ & A). rewrite A in M. rewrite ENo by exact NE. apply (inv_mgr _ I j M).
+  - intros j H. apply (inv_tmr _ I), DTM, H.
+Qed.
+
+Lemma keys_of_rule_keys c : rule_keys (rules_of c) = keys_of c.
+Proof. unfold keys_of, entries_of. apply rule_keys_entries. Qed.
+
+Lemma disable_disabled_from s i :
+  Inv s -> en s i = true -> disabled_from s (dev_disable cfg s i) i.
+Proof.
+  intros I E. assert (R : (i < length (devs s))%nat) by (apply en_in_range, E).
+  assert (AR : arules (dev s i) = rules_of (cf cfg i)) by (apply (inv_rules _ I i), E).
+  unfold en in E. unfold dev_disable. destruct (is_flip (cf cfg i)) eqn:F.
+  - rewrite E, AR.
+    destruct (clear_rules_proj s i (rules_of (cf cfg i))) as (CT & CE & CL & CM & CD & CTM).
+    set (s1 := clear_rules cfg s i (rules_of (cf cfg i))) in *.
+    set (s2 := if flipped (dev s i) then dev_release cfg s1 i else s1).
+    assert (FR : frame s1 s2) by (unfold s2; destruct (flipped (dev s i)); [apply frame_release | apply frame_refl]).
+    destruct FR as (F1 & F2 & F3 & F4 & F5).
+    assert (M2 : mgr (dev s2 i) = None).
+    { destruct (mgr (dev s2 i)) eqn:M; [|reflexivity]. exfalso.
+      destruct (F4 i) as (_ & _ & X). apply X; congruence. }
+    assert (R2 : Nat.ltb i (length (devs s2)) = true) by (apply Nat.ltb_lt; congruence).
+    unfold disabled_from. proj. rewrite length_upd.
+    repeat split.
+    + rewrite F1, CT, keys_of_rule_keys. reflexivity.
+    + congruence.
+    + congruence.
+    + rewrite dev_w_dev, Nat.eqb_refl, R2. reflexivity.
+    + intros _. rewrite dev_w_dev, Nat.eqb_refl, R2. reflexivity.
+    + rewrite dev_w_dev, Nat.eqb_refl, R2. exact M2.
+    + rewrite dev_w_dev_other by exact H. destruct (F4 j) as (X & _). destruct (CD j) as (Y & _). congruence.
+    + rewrite dev_w_dev_other by exact H. destruct (F4 j) as (_ & X & _). destruct (CD j) as (_ & Y & _). congruence.
+    + rewrite dev_w_dev_other by exact H.
+      (* dev_release touches device i only *)
+      destruct (CD j) as (_ & _ & _ & Y). rewrite <- (Y H). unfold s2.
+      destruct (flipped (dev s i)); [|reflexivity].
+      rewrite dev_release_other by exact H. reflexivity.
+    + intros j Hj. apply CTM, F5. exact Hj.
+  - set (s0 := w_timers s (del_tmr (TReenable i) (timers s))).
+    assert (D0 : forall j, dev s0 j = dev s j) by reflexivity.
+    rewrite D0, E, AR.
+    set (s1 := w_dev s0 i (mkDS false (rules_of (cf cfg i)) (flipped (dev s i)) (mgr (dev s i)) (hits (dev s i)))).
+    destruct (clear_rules_proj s1 i (rules_of (cf cfg i))) as (CT & CE & CL & CM & CD & CTM).
+    assert (R1 : Nat.ltb i (length (devs s0)) = true) by (apply Nat.ltb_lt; exact R).
+    unfold disabled_from. repeat split.
+    + rewrite CT, keys_of_rule_keys. reflexivity.
+    + rewrite CE. reflexivity.
+    + rewrite CL. unfold s1. proj. apply length_upd.
+    + destruct (CD i) as (X & _). rewrite X. unfold s1. rewrite dev_w_dev, Nat.eqb_refl, R1. reflexivity.
+    + congruence.
+    + exact CM.
+    + destruct (CD j) as (X & _). rewrite X. unfold s1. rewrite dev_w_dev_other by exact H. reflexivity.
+    + destruct (CD j) as (_ & X & _). rewrite X. unfold s1. rewrite dev_w_dev_other by exact H. reflexivity.
+    + destruct (CD j) as (_ & _ & _ & X). rewrite (X H). unfold s1. rewrite dev_w_dev_other by exact H. reflexivity.
+    + intros j Hj. apply CTM in Hj. unfold s1, s0 in Hj. proj. eapply has_tmr_del, Hj.
+Qed.
+
+Lemma inv_disable s i : Inv s -> Inv (dev_disable cfg s i).
+Proof.
+  intros I. destruct (en s i) eqn:E.
+  - eapply disabled_from_inv; [exact I | exact E | apply disable_disabled_from; assumption].
+  - unfold en in E. unfold dev_disable. destruct (is_flip (cf cfg i)).
+    + rewrite E. exact I.
+    + set (s0 := w_timers s (del_tmr (TReenable i) (timers s))).
+      assert (D0 : dev s0 i = dev s i) by reflexivity. rewrite D0, E.
+      eapply frame_inv; [|exact I]. apply frame_w_timers. intros j. apply has_tmr_del.
+Qed.
+
+Lemma inv_hit s i : Inv s -> Inv (dev_hit cfg s i).
+Proof.
+  intros I. unfold dev_hit. destruct (is_flip (cf cfg i)) eqn:F; [exact I|].
+  destruct (enabled (dev s i)) eqn:EN; cbn [negb]; [|exact I].
+  destruct (d_watch (cf cfg i) =? 0); [exact I|].
+  match goal with |- context [w_dev s i ?d] => set (s1 := w_dev s i d) end.
+  assert (I1 : Inv s1) by (eapply frame_inv; [apply frame_w_dev; cbn; auto | exact I]).
+  destruct (d_maxhits (cf cfg i) <=? _); [|exact I1].
+  pose proof (inv_disable s1 i I1) as I2. set (s2 := dev_disable cfg s1 i) in *.
+  destruct I2 as [L R T N E M TM]. constructor; auto.
+  intros j H. proj. apply has_tmr_add in H as [H|H]; [|apply TM, H].
+  inversion H; subst. exact F.
+Qed.
+
+Lemma inv_fire s x : Inv s -> Inv (fire cfg s x).
+Proof.
+  intros I. unfold fire. destruct (has_tmr x (timers s)); [|exact I].
+  assert (I1 : Inv (w_timers s (del_tmr x (timers s)))).
+  { eapply frame_inv; [|exact I]. apply frame_w_timers. intros j. apply has_tmr_del. }
+  destruct x.
+  - apply inv_enable, I1.
+  - eapply frame_inv; [apply frame_release | exact I1].
+  - eapply frame_inv; [apply frame_eos_long | exact I1].
+Qed.
+
+Lemma inv_act s a : Inv s -> Inv (do_act cfg s a).
+Proof.
+  intros I. destruct a; cbn [do_act].
+  - apply inv_enable, I.
+  - apply inv_disable, I.
+  - eapply frame_inv; [apply frame_flip | exact I].
+  - eapply frame_inv; [apply frame_release | exact I].
+  - apply inv_hit, I.
+  - eapply frame_inv; [apply frame_bs | exact I].
+  - eapply frame_inv; [apply frame_button | exact I].
+  - eapply frame_inv; [apply frame_eos_on | exact I].
+  - eapply frame_inv; [apply frame_eos_off | exact I].
+  - eapply frame_inv; [apply frame_set_sw | exact I].
+  - eapply frame_inv; [apply frame_w_now | exact I].
+  - apply inv_fire, I.
+Qed.
+
+Lemma inv_acts l : forall s, Inv s -> Inv (run_acts cfg s l).
+Proof. induction l as [|a l IH]; intros s I; cbn; [exact I | apply IH, inv_act, I]. Qed.
+
+Lemma inv_step s o : Inv s -> Inv (step cfg s o).
+Proof.
+  intros I. unfold step. apply inv_acts, inv_acts. eapply frame_inv; [apply frame_w_log | exact I].
+Qed.
+
+Lemma inv_init : Inv (init cfg).
+Proof.
+  assert (D : forall i, dev (init cfg) i = ds0).
+  { intros i. unfold dev, init. cbn [devs]. clear W. revert i.
+    induction cfg as [|c l IH]; intros [|i]; cbn; auto. }
+  constructor.
+  - cbn. apply map_length.
+  - intros i. unfold en. rewrite D. cbn. split; [discriminate | auto].
+  - intros kv. cbn [init tbl]. split; [intros [] |]. intros (i & _ & E & _). unfold en in E. rewrite D in E. discriminate.
+  - cbn. constructor.
+  - reflexivity.
+  - intros i. rewrite D. cbn. congruence.
+  - intros i. cbn. discriminate.
+Qed.
+
+Lemma inv_run ops : forall s, Inv s -> Inv (run_ops cfg s ops).
+Proof. induction ops as [|o l IH]; intros s I; cbn; [exact I | apply IH, inv_step, I]. Qed.
+
+(* ------------------------------------------------------------------------------------------ *)
+(* a device that is off stays off (and without rules) until something enables it *)
+Definition quiet (s : state) (i : nat) : Prop :=
+  en s i = false /\ has_tmr (TReenable i) (timers s) = false.
+
+Lemma frame_quiet s s' i : frame s s' -> quiet s i -> quiet s' i.
+Proof.
+  intros (_ & _ & _ & F4 & F5) [Q1 Q2]. split.
+  - unfold en in *. destruct (F4 i) as (X & _). congruence.
+  - destruct (has_tmr (TReenable i) (timers s')) eqn:E; [|reflexivity]. apply F5 in E. congruence.
+Qed.
+
+Lemma quiet_enable_other s i j : j <> i -> quiet s i -> quiet (dev_enable cfg s j) i.
+Proof.
+  intros NE [Q1 Q2]. destruct (enabled (dev s j)) eqn:E.
+  { unfold dev_enable. rewrite E. split; assumption. }
+  destruct (dev_enable_proj s j E) as (_ & _ & PD & PTM). split.
+  - unfold en, dev. rewrite PD, nth_upd. apply Nat.eqb_neq in NE. rewrite Nat.eqb_sym in NE. 
+    replace (Nat.eqb i j) with false by (symmetry; rewrite Nat.eqb_sym; exact NE). exact Q1.
+  - destruct (has_tmr (TReenable i) (timers (dev_enable cfg s j))) eqn:H; [|reflexivity].
+    apply PTM in H. congruence.
+Qed.
+
+Lemma disable_no_reenable s i :
+  is_flip (cf cfg i) = false -> has_tmr (TReenable i) (timers (dev_disable cfg s i)) = false.
+Proof.
+  intros F. unfold dev_disable. rewrite F.
+  set (s0 := w_timers s (del_tmr (TReenable i) (timers s))).
+  assert (T0 : has_tmr (TReenable i) (timers s0) = false) by apply has_tmr_del_same.
+  destruct (enabled (dev s0 i)); [|exact T0].
+  match goal with |- context [clear_rules cfg ?a i ?r] => destruct (clear_rules_proj a i r) as (_ & _ & _ & _ & _ & CTM) end.
+  match goal with |- ?x = false => destruct x eqn:H; [|reflexivity] end.
+  apply CTM in H. proj. congruence.
+Qed.
+
+Lemma quiet_disable s i j : Inv s -> quiet s i -> quiet (dev_disable cfg s j) i.
+Proof.
+  intros I Q. destruct (en s j) eqn:E.
+  - destruct (disable_disabled_from s j I E) as (_ & _ & _ & DEn & _ & _ & DO & DTM).
+    destruct Q as [Q1 Q2]. split.
+    + unfold en. destruct (Nat.eq_dec i j) as [->|NE]; [exact DEn|]. destruct (DO i NE) as (X & _).
+      unfold en in Q1. congruence.
+    + match goal with |- ?x = false => destruct x eqn:H; [|reflexivity] end. apply DTM in H. congruence.
+  - unfold en in E. unfold dev_disable. destruct (is_flip (cf cfg j)); [rewrite E; exact Q|].
+    set (s0 := w_timers s (del_tmr (TReenable j) (timers s))).
+    assert (D0 : dev s0 j = dev s j) by reflexivity. rewrite D0, E.
+    eapply frame_quiet; [|exact Q]. apply frame_w_timers. intros k. apply has_tmr_del.
+Qed.
+
+Lemma disable_quiet s i : Inv s -> quiet (dev_disable cfg s i) i.
+Proof.
+  intros I. pose proof (inv_disable s i I) as I'. split.
+  - destruct (en s i) eqn:E.
+    + destruct (disable_disabled_from s i I E) as (_ & _ & _ & DEn & _). exact DEn.
+    + unfold en in *. unfold dev_disable. destruct (is_flip (cf cfg i)); [rewrite E; exact E|].
+      set (s0 := w_timers s (del_tmr (TReenable i) (timers s))).
+      assert (D0 : dev s0 i = dev s i) by reflexivity. rewrite D0, E. exact E.
+  - destruct (is_flip (cf cfg i)) eqn:F; [|apply disable_no_reenable, F].
+    match goal with |- ?x = false => destruct x eqn:H; [|reflexivity] end.
+    apply (inv_tmr _ I') in H. congruence.
+Qed.
+
+Lemma quiet_hit s i j : Inv s -> quiet s i -> quiet (dev_hit cfg s j) i.
+Proof.
+  intros I Q. unfold dev_hit. destruct (is_flip (cf cfg j)) eqn:F; [exact Q|].
+  destruct (enabled (dev s j)) eqn:EN; cbn [negb]; [|exact Q].
+  destruct (d_watch (cf cfg j) =? 0); [exact Q|].
+  assert (NE : i <> j) by (intros ->; destruct Q as [Q1 _]; unfold en in Q1; congruence).
+  match goal with |- context [w_dev s j ?d] => set (s1 := w_dev s j d) end.
+  assert (FR : frame s s1) by (apply frame_w_dev; cbn; auto).
+  assert (I1 : Inv s1) by (eapply frame_inv; eauto).
+  assert (Q1 : quiet s1 i) by (eapply frame_quiet; eauto).
+  destruct (d_maxhits (cf cfg j) <=? _); [|exact Q1].
+  destruct (quiet_disable s1 i j I1 Q1) as [A B]. split.
+  - exact A.
+  - proj. match goal with |- ?x = false => destruct x eqn:H; [|reflexivity] end.
+    apply has_tmr_add in H as [H|H]; [inversion H; congruence | congruence].
+Qed.
+
+Lemma quiet_fire s i x : Inv s -> quiet s i -> quiet (fire cfg s x) i.
+Proof.
+  intros I Q. unfold fire. destruct (has_tmr x (timers s)) eqn:HX; [|exact Q].
+  assert (FR : frame s (w_timers s (del_tmr x (timers s)))).
+  { apply frame_w_timers. intros j. apply has_tmr_del. }
+  assert (Q1 := frame_quiet _ _ i FR Q).
+  destruct x.
+  - apply quiet_enable_other; [|exact Q1]. intros ->. destruct Q as [_ Q2]. congruence.
+  - eapply frame_quiet; [apply frame_release | exact Q1].
+  - eapply frame_quiet; [apply frame_eos_long | exact Q1].
+Qed.
+
+Lemma quiet_act s i a : Inv s -> quiet s i -> a <> AEnable i -> quiet (do_act cfg s a) i.
+Proof.
+  intros I Q NE. destruct a; cbn [do_act].
+  - apply quiet_enable_other; [congruence | exact Q].
+  - apply quiet_disable; assumption.
+  - eapply frame_quiet; [apply frame_flip | exact Q].
+  - eapply frame_quiet; [apply frame_release | exact Q].
+  - apply quiet_hit; assumption.
+  - eapply frame_quiet; [apply frame_bs | exact Q].
+  - eapply frame_quiet; [apply frame_button | exact Q].
+  - eapply frame_quiet; [apply frame_eos_on | exact Q].
+  - eapply frame_quiet; [apply frame_eos_off | exact Q].
+  - eapply frame_quiet; [apply frame_set_sw | exact Q].
+  - eapply frame_quiet; [apply frame_w_now | exact Q].
+  - apply quiet_fire; assumption.
+Qed.
+
+Lemma quiet_acts l i : forall s, Inv s -> quiet s i -> ~ In (AEnable i) l -> quiet (run_acts cfg s l) i.
+Proof.
+  induction l as [|a l IH]; intros s I Q N; cbn; [exact Q|].
+  apply IH; [apply inv_act, I | apply quiet_act; auto; intros ->; apply N; left; reflexivity |].
+  intros H. apply N. right. exact H.
+Qed.
+
+Lemma run_acts_app s a b : run_acts cfg s (a ++ b) = run_acts cfg (run_acts cfg s a) b.
+Proof. apply fold_left_app. Qed.
+
+(* after an explicit disable action in the list and no later enable *)
+Lemma quiet_after_disable l i s :
+  Inv s -> In (ADisable i) l -> ~ In (AEnable i) l -> quiet (run_acts cfg s l) i.
+Proof.
+  intros I D N. apply in_split in D as (l1 & l2 & ->). rewrite run_acts_app. cbn [run_acts fold_left].
+  apply quiet_acts.
+  - apply inv_act, inv_acts, I.
+  - apply disable_quiet, inv_acts, I.
+  - intros H. apply N. rewrite in_app_iff. right. right. exact H.
+Qed.
+
+Lemma in_sel a p f : In a (sel cfg p f) -> exists j, a = f j /\ p (cf cfg j) = true /\ (j < length cfg)%nat.
+Proof.
+  unfold sel. rewrite in_map_iff. intros (j & E & H). apply filter_In in H as [H1 H2].
+  exists j. repeat split; auto. unfold ids in H1. apply in_seq in H1. lia.
+Qed.
+Lemma sel_in p f j : (j < length cfg)%nat -> p (cf cfg j) = true -> In (f j) (sel cfg p f).
+Proof.
+  intros L P. unfold sel. apply in_map. apply filter_In. split; [|exact P].
+  unfold ids. apply in_seq. lia.
+Qed.
+
+Lemma due_no_enable s t i : ~ In (AEnable i) (due_acts s t).
+Proof.
+  unfold due_acts. rewrite in_app_iff. intros [H|[H|[]]]; [|discriminate].
+  apply in_flat_map in H as (e & _ & [H|[H|[]]]); discriminate.
+Qed.
+
+Definition passive (i : nat) (o : op) : Prop :=
+  match o with
+  | Enable j => j <> i
+  | Ev e => mem e (en_events (cf cfg i)) = false
+  | _ => True
+  end.
+
+Lemma acts_passive s i o : passive i o -> ~ In (AEnable i) (acts_of cfg s o).
+Proof.
+  destruct o; cbn [passive acts_of]; intros P H.
+  - destruct H as [H|[]]. inversion H. congruence.
+  - destruct H as [H|[]]; discriminate.
+  - destruct H as [H|[]]; discriminate.
+  - destruct H as [H|[]]; discriminate.
+  - destruct H as [H|[]]; discriminate.
+  - rewrite !in_app_iff in H. destruct H as [H|[H|[H|H]]]; apply in_sel in H as (j & E & Pj & _); try discriminate.
+    inversion E; subst j. congruence.
+  - destruct (fst (sget w (sws s))); [contradiction|]. destruct H as [H|H]; [discriminate|].
+    rewrite !in_app_iff in H. destruct H as [H|[H|H]]; apply in_sel in H as (j & E & _); discriminate.
+  - destruct (fst (sget w (sws s))); [|contradiction]. destruct H as [H|H]; [discriminate|].
+    rewrite !in_app_iff in H. destruct H as [H|H]; apply in_sel in H as (j & E & _); discriminate.
+  - eapply due_no_enable, H.
+Qed.
+
+Lemma quiet_step s i o : Inv s -> quiet s i -> passive i o -> quiet (step cfg s o) i.
+Proof.
+  intros I Q P. unfold step.
+  assert (I0 : Inv (w_log s [])) by (eapply frame_inv; [apply frame_w_log | exact I]).
+  assert (Q0 : quiet (w_log s []) i) by (eapply frame_quiet; [apply frame_w_log | exact Q]).
+  apply quiet_acts; [apply inv_acts, I0 | | apply due_no_enable].
+  apply quiet_acts; [exact I0 | exact Q0 | apply acts_passive, P].
+Qed.
+
+Lemma quiet_run ops i : forall s, Inv s -> quiet s i -> Forall (passive i) ops -> quiet (run_ops cfg s ops) i.
+Proof.
+  induction ops as [|o l IH]; intros s I Q F; cbn; [exact Q|]. inversion F; subst.
+  apply IH; [apply inv_step, I | apply quiet_step; assumption | assumption].
+Qed.
+
+(* an event wired to disable device i (and not to enable it) makes it quiet *)
+Lemma event_quiet s i e :
+  Inv s -> (i < length cfg)%nat -> mem e (dis_events (cf cfg i)) = true -> mem e (en_events (cf cfg i)) = false ->
+  quiet (step cfg s (Ev e)) i.
+Proof.
+  intros I L D E. unfold step.
+  assert (I0 : Inv (w_log s [])) by (eapply frame_inv; [apply frame_w_log | exact I]).
+  apply quiet_acts; [apply inv_acts, I0 | | apply due_no_enable].
+  apply quiet_after_disable; [exact I0 | |].
+  - cbn [acts_of]. rewrite in_app_iff. left. apply (sel_in (fun c => mem e (dis_events c)) ADisable i L D).
+  - apply acts_passive. cbn. exact E.
+Qed.
+
+Lemma off_no_keys s i k :
+  Inv s -> (i < length cfg)%nat -> en s i = false -> In k (keys_of (cf cfg i)) -> has_key k (tbl s) = false.
+Proof.
+  intros I L E K. apply has_key_false. intros H. apply in_map_iff in H as [[k' v] [Ek H]]. cbn in Ek; subst k'.
+  apply (inv_tbl _ I) in H as (j & Lj & Ej & Hj).
+  destruct (Nat.eq_dec j i) as [->|NE]; [congruence|].
+  eapply (wf_keys_disj cfg i j k W L Lj); [congruence | exact K | eapply key_in_entries, Hj].
+Qed.
+
+(* enable is idempotent: the second call changes nothing and makes no platform call *)
+Lemma enable_idem s i : (i < length (devs s))%nat ->
+  dev_enable cfg (dev_enable cfg s i) i = dev_enable cfg s i.
+Proof.
+  intros R. destruct (enabled (dev s i)) eqn:E.
+  - unfold dev_enable. rewrite E. rewrite E. reflexivity.
+  - destruct (dev_enable_proj s i E) as (_ & _ & PD & _).
+    set (s' := dev_enable cfg s i) in *.
+    assert (E' : enabled (dev s' i) = true).
+    { unfold dev. rewrite PD, nth_upd, Nat.eqb_refl. apply Nat.ltb_lt in R. rewrite R. reflexivity. }
+    unfold dev_enable at 1. rewrite E'. reflexivity.
+Qed.
+
+End Invariant.
+
+(* ------------------------------------------------------------------------------------------ *)
+(* statements used by Props.v *)
+Lemma rules_equal_enabled_devices_l : forall cfg ops, wf cfg ->
+  let s := run_ops cfg (init cfg) ops in
+  (forall kv, In kv (tbl s) <->
+              exists i, (i < length cfg)%nat /\ enabled (dev s i) = true /\ In kv (entries_of (cf cfg i))) /\
+  NoDup (map fst (tbl s)) /\ err s = false /\
+  (forall i, enabled (dev s i) = true -> arules (dev s i) = rules_of (cf cfg i)).
+Proof.
+  intros cfg ops W s. assert (I : Inv cfg s) by (apply inv_run; [exact W | apply inv_init]).
+  repeat split.
+  - apply (inv_tbl _ _ I).
+  - apply (inv_tbl _ _ I).
+  - apply (inv_nodup _ _ I).
+  - apply (inv_err _ _ I).
+  - intros i. apply (inv_rules _ _ I i).
+Qed.
+
+Lemma enable_idempotent_l : forall cfg s i, wf cfg -> (i < length (devs s))%nat ->
+  do_act cfg (do_act cfg s (AEnable i)) (AEnable i) = do_act cfg s (AEnable i).
+Proof. intros cfg s i W R. cbn [do_act]. apply enable_idem; assumption. Qed.
+
+Lemma run_ops_app cfg s a b : run_ops cfg s (a ++ b) = run_ops cfg (run_ops cfg s a) b.
+Proof. apply fold_left_app. Qed.
+
+Lemma disable_removes_all_l : forall cfg ops i, wf cfg -> (i < length cfg)%nat ->
+  let s := run_ops cfg (init cfg) (ops ++ [Disable i]) in
+  enabled (dev s i) = false /\
+  (forall k, In k (keys_of (cf cfg i)) -> has_key k (tbl s) = false) /\
+  has_tmr (TReenable i) (timers s) = false /\
+  mgr (dev s i) = None.
+Proof.
+  intros cfg ops i W L s. unfold s. rewrite run_ops_app. cbn [run_ops fold_left].
+  set (s0 := run_ops cfg (init cfg) ops).
+  assert (I0 : Inv cfg s0) by (apply inv_run; [exact W | apply inv_init]).
+  assert (I1 : Inv cfg (step cfg s0 (Disable i))) by (apply inv_step; assumption).
+  assert (Q : quiet (step cfg s0 (Disable i)) i).
+  { unfold step.
+    assert (I0' : Inv cfg (w_log s0 [])) by (eapply frame_inv; [apply frame_w_log | exact I0]).
+    apply quiet_acts; [exact W | apply inv_acts; assumption | | apply due_no_enable].
+    apply quiet_after_disable; [exact W | exact I0' | left; reflexivity |].
+    cbn. intros [H|[]]. discriminate. }
+  destruct Q as [Q1 Q2]. repeat split; auto.
+  - intros k K. eapply off_no_keys; eauto.
+  - destruct (mgr (dev (step cfg s0 (Disable i)) i)) eqn:M; [|reflexivity].
+    exfalso. assert (X : mgr (dev (step cfg s0 (Disable i)) i) <> None) by congruence.
+    apply (inv_mgr _ _ I1) in X as [_ X]. unfold en in *. congruence.
+Qed.
+
+Lemma default_dis c e : d_dis_ev c = None -> e = ev_ball_will_end \/ e = ev_service_mode_entered ->
+  mem e (dis_events c) = true.
+Proof. intros H [-> | ->]; unfold dis_events; rewrite H; destruct (d_kind c); reflexivity. Qed.
+Lemma default_en c e : d_en_ev c = None -> e = ev_ball_will_end \/ e = ev_service_mode_entered ->
+  mem e (en_events c) = false.
+Proof. intros H [-> | ->]; unfold en_events; rewrite H; destruct (d_kind c); reflexivity. Qed.
+
+Lemma no_rules_outside_ball_l : forall cfg ops1 e ops2 i,
+  wf cfg -> (i < length cfg)%nat ->
+  d_en_ev (cf cfg i) = None -> d_dis_ev (cf cfg i) = None ->
+  e = ev_ball_will_end \/ e = ev_service_mode_entered ->
+  Forall (passive cfg i) ops2 ->
+  let s := run_ops cfg (init cfg) (ops1 ++ Ev e :: ops2) in
+  enabled (dev s i) = false /\
+  (forall k, In k (keys_of (cf cfg i)) -> has_key k (tbl s) = false) /\
+  has_tmr (TReenable i) (timers s) = false /\
+  mgr (dev s i) = None.
+Proof.
+  intros cfg ops1 e ops2 i W L DE DD HE P s. unfold s. rewrite run_ops_app. cbn [run_ops fold_left].
+  set (s0 := run_ops cfg (init cfg) ops1).
+  assert (I0 : Inv cfg s0) by (apply inv_run; [exact W | apply inv_init]).
+  assert (I1 : Inv cfg (step cfg s0 (Ev e))) by (apply inv_step; assumption).
+  assert (Q1 : quiet (step cfg s0 (Ev e)) i).
+  { apply event_quiet; auto; [apply default_dis | apply default_en]; assumption. }
+  fold (run_ops cfg (step cfg s0 (Ev e)) ops2).
+  set (s2 := run_ops cfg (step cfg s0 (Ev e)) ops2).
+  assert (I2 : Inv cfg s2) by (apply inv_run; assumption).
+  assert (Q2 : quiet s2 i) by (apply quiet_run; assumption).
+  destruct Q2 as [A B]. repeat split; auto.
+  - intros k K. eapply off_no_keys; eauto.
+  - destruct (mgr (dev s2 i)) eqn:M; [|reflexivity].
+    exfalso. assert (X : mgr (dev s2 i) <> None) by congruence.
+    apply (inv_mgr _ _ I2) in X as [_ X]. unfold en in *. congruence.
+Qed.
+
+(* ------------------------------------------------------------------------------------------ *)
+(* coils of a flipper after disable (the step where the EOS-repulse defect lived) *)
+Lemma cget_cset c c' v l : cget c (cset c' v l) = if c' =? c then v else cget c l.
+Proof.
+  induction l as [|[k x] l IH]; cbn.
+  - rewrite Z.eqb_sym. reflexivity.
+  - destruct (k =? c') eqn:A; cbn.
+    + apply Z.eqb_eq in A; subst k. destruct (c' =? c); reflexivity.
+    + destruct (k =? c) eqn:B; [|exact IH].
+      apply Z.eqb_eq in B; subst k. rewrite Z.eqb_sym in A. rewrite A. reflexivity.
+Qed.
+
+Lemma disable_releases_coils_l : forall cfg s i,
+  is_flip (cf cfg i) = true -> enabled (dev s i) = true ->
+  (cget (d_coil (cf cfg i)) (coils s) = 1 ->
+     flipped (dev s i) = true \/ exists l, mgr (dev s i) = Some (true, l)) ->
+  (forall h, d_hold (cf cfg i) = Some h -> cget h (coils s) = 1 -> flipped (dev s i) = true) ->
+  let s' := dev_disable cfg s i in
+  cget (d_coil (cf cfg i)) (coils s') <> 1 /\
+  (forall h, d_hold (cf cfg i) = Some h -> cget h (coils s') <> 1).
+Proof.
+  intros cfg s i F E HM HH. cbv zeta. unfold dev_disable. rewrite F, E.
+  unfold clear_rules, dev_release. rewrite F.
+  destruct (mgr (dev s i)) as [[[|] l]|] eqn:M; destruct (flipped (dev s i)) eqn:FL;
+    destruct (d_hold (cf cfg i)) as [h|] eqn:DH; proj;
+    (split; [| intros h' Eh'; try discriminate; inversion Eh'; subst h']);
+    rewrite ?cget_cset, ?Z.eqb_refl;
+    repeat match goal with |- context [if ?a =? ?b then _ else _] => destruct (a =? b) end;
+    try discriminate;
+    try (intros X; apply HM in X as [X | [l' X]]; congruence);
+    try (intros X; apply (HH _ eq_refl) in X; congruence).
+Qed.
+
+(* ------------------------------------------------------------------------------------------ *)
+(* a concrete machine and history (used by the Examples of Props.v) *)
+Definition ex_cfg : list dcfg :=
+  [ mkD KFlip (Some 1) 1 None (Some 2) true true 250 true 1125 0 0 0 0 None None [] [];
+    mkD KFlip (Some 1) 2 (Some 3) None false false 0 false 2375 0 0 0 0 None None [] [];
+    mkD KAuto (Some 3) 4 None None false false 0 true 0 0 1000 2 625 None None [] [];
+    mkD KKick (Some 4) 5 None None false false 0 true 0 0 0 0 0 None None [] [] ].
+Definition ex_ops1 : list op :=
+  [ Ev ev_ball_started; Enable 3; SwOn 3; SwOff 3; SwOn 3; Advance 1; SwOn 1; SwOn 2; Advance 1; SwOff 2 ].
+Definition ex_ops2 : list op := [ SwOff 1; Advance 2; SwOn 3; BallSearch 0; Disable 0 ].
+
+Lemma ex_wf_l : wf ex_cfg.
+Proof. unfold wf. cbn. repeat constructor; cbn; intuition congruence. Qed.
+
+Lemma ex_history_l :
+  length (tbl (run_ops ex_cfg (init ex_cfg) ex_ops1)) = 6%nat /\
+  cget 1 (coils (run_ops ex_cfg (init ex_cfg) ex_ops1)) = 1 /\
+  d_en_ev (cf ex_cfg 0) = None /\ d_dis_ev (cf ex_cfg 0) = None /\
+  Forall (passive ex_cfg 0) ex_ops2 /\ ex_ops2 <> [] /\
+  tbl (run_ops ex_cfg (init ex_cfg) (ex_ops1 ++ Ev ev_ball_will_end :: ex_ops2)) = [] /\
+  cget 1 (coils (run_ops ex_cfg (init ex_cfg) (ex_ops1 ++ Ev ev_ball_will_end :: ex_ops2))) = 0.
+Proof.
+  split; [vm_compute; reflexivity|]. split; [vm_compute; reflexivity|].
+  split; [reflexivity|]. split; [reflexivity|].
+  split; [repeat constructor; cbn; congruence|]. split; [discriminate|].
+  split; vm_compute; reflexivity.
+Qed.
+
+Lemma ex_coil_held_l :
+  let s := run_ops ex_cfg (init ex_cfg) ex_ops1 in
+  is_flip (cf ex_cfg 0) = true /\ enabled (dev s 0%nat) = true /\ cget 1 (coils s) = 1 /\
+  flipped (dev s 0%nat) = false /\ mgr (dev s 0%nat) = Some (true, false).
+Proof. vm_compute. repeat split; reflexivity. Qed.
